@@ -332,3 +332,6 @@ def validate_tables(rep, tier):
         simple_table(rep, "Q-validate", cls + ".validate", at, modes, code, spec,
                      "valid %s tier / textgrid and single corruptions of span and entry order" % kind, eq)
     rep.functions.add(idx.get("Textgrid.validate").qual)
+
+    rep.rule("V-fresh", "no method or property of a tier / textgrid class is memoised (cached_property, lru_cache): derived views such as .timestamps are recomputed from the current entries at every access")
+    common.rule_no_memo(rep)
